@@ -26,8 +26,8 @@ pub struct ExWaker(std::task::Waker);
 //@ enditem
 
 impl Sender {
-//@ slice src/sources/futures.rs / impl Sender / fn send :: stmts <<if self.notified.swap(true, Ordering::SeqCst)>> .. <<self.wake_up.ping();>> props=C10 name=Sender::send::wake_step
-//@ rw R19 * <<self.notified.swap(true, Ordering::SeqCst)>> => <<atomic_swap(&self.notified, true, Ordering::SeqCst)>>
+//@ slice src/sources/futures.rs / impl Sender / fn send :: after <<if let Err(e) = self .sender .lock()>> props=C10 name=Sender::send::wake_step
+//@ rw R19 * <<self.notified.swap(>> => <<atomic_swap(&self.notified, >>
 //@ sig
     /// S1 slice of futures::Sender::send (called by wakers on any thread): the two statements AFTER the runnable has been
     /// put into the queue. Dropped: the enqueue itself (Mutex<mpsc::Sender>::lock().unwrap_or_else(..).send(..): std Mutex
